@@ -169,8 +169,11 @@ RefTok == /\ phase = "tok" /\ Len(toks) < MaxTok /\ outpos > 0
           /\ UNCHANGED <<fields, blocks, bitpos, phase, btype, nblk, fin, tailn, modes, twin>>
 
 \* a Huffman block may be empty (end-of-block code only)
+\* in twin mode the first block is not the last one and leaves room for the shifted distances, so that
+\* (nearly) every generated stream gets its twin block
 EndBlock == /\ phase = "tok"
-            /\ \E f \in {0, 1} : FinalFlag(f) /\ fin' = f
+            /\ (Mode = "twin" /\ nblk = 1 => outpos >= 4)
+            /\ \E f \in {0, 1} : FinalFlag(f) /\ (Mode = "twin" /\ nblk = 1 => f = 0) /\ fin' = f
             /\ phase' = "emit"
             /\ UNCHANGED <<fields, toks, blocks, outpos, bitpos, btype, nblk, feat, tailn, modes, twin>>
 
